@@ -4,7 +4,11 @@ Tie: correct_ttest / approx_correct_ttest / penetrance_parameter_distance / appr
 exact_penetrance_test / score_differential_genes / _get_validity_mask on dyadic grids where binary64
 arithmetic is exact, then both routes end to end (find_markers_for_all_taxonomy_pairs; p-value mask
 route) on generated statistics files, vs coq/Model/Holm.v + Penetrance.v (tags 1101-1111), plus the
-property's own statement on every observed output."""
+property's own statement on every observed output.  welch_cases: Model/Welch.v (tags 1150-1154) - aggregate_stats,
+_calculate_tt_nu, pij_from_stats, q_score_from_pij, welch_t_test (exact and skipping) and score_differential_genes
+all computed FROM THE SUMMARY STATISTICS, scipy's t.cdf as a per-gene oracle.  boring_premises /
+boring_premise_cases: the premises of c11_boring_t_sound / c11_sound_exact_welch evaluated numerically on every
+(t, nu) that occurs and over the range of p_th; boring_huge_nu_case: where they fail (known finding)."""
 import contextlib
 import io
 import itertools
@@ -1050,7 +1054,7 @@ def e2e_cases(ctx):
 F_INFO = np.finfo(float)
 CLIP_LO = float(F_INFO.smallest_normal)
 CLIP_HI = 1.0 - float(F_INFO.epsneg)
-F21 = 'F21-boring-t-skips-gene-with-exact-p-below-threshold-at-huge-nu'
+BORING_NU = 'c11-boring-t-skips-gene-with-exact-p-below-threshold-at-huge-nu'
 
 
 def summary_row(X, D=4):
@@ -1297,7 +1301,7 @@ def boring_premises(ss, tt, nu, bt, p_th):
 def boring_premise_cases(ctx):
     """end_lo / end_hi over the whole range of p_th and of nu the pipeline can produce on data of the sizes
     the harness generates and far beyond (nu up to 1e6), and the measured limit: for nu above a few million
-    the premise fails (finding F21) - recorded as a number, not assumed."""
+    the premise fails (finding C11-boring-huge-nu, boring_huge_nu_case) - recorded as a number, not assumed."""
     from cell_type_mapper.utils.stats_utils import boring_t_from_p_value
     import scipy.stats as ss
     rng = ctx.rng
@@ -1329,6 +1333,62 @@ def boring_premise_cases(ctx):
         ctx.violation('end_lo fails below nu = 1e6', {'class': 'c11-boring-premise-false-on-occurring-value', 'limits': limits})
 
 
+def boring_huge_nu_case(ctx):
+    """Finding C11-boring-huge-nu: two clusters of 1e7 cells (statistics only), one gene with |t| 2e-7 below
+    boring_t: its exact Welch p-value (Holm multiplier 1) is below p_th, so score_differential_genes with exact
+    p-values records it, but the worker's call (boring_t = boring_t_from_p_value(p_th)) gives it p = 1."""
+    from cell_type_mapper.utils.stats_utils import boring_t_from_p_value, welch_t_test
+    from cell_type_mapper.diff_exp.scores import score_differential_genes
+    for p_th in (0.01, 0.02):
+        bt = boring_t_from_p_value(p_th)
+        n = 10 ** 7
+        d = (bt - 2.0e-7) * float(np.sqrt(2.0 / n))
+        stats = {'c/a': {'n_cells': n, 'mean': np.array([8.0 + d]), 'var': np.array([1.0]), 'ge1': np.array([n])},
+                 'c/b': {'n_cells': n, 'mean': np.array([8.0]), 'var': np.array([1.0]), 'ge1': np.array([0])}}
+        kw = dict(node_1='c/a', node_2='c/b', precomputed_stats=stats, p_th=p_th, q1_th=0.5, qdiff_th=0.7,
+                  log2_fold_th=0.001, q1_min_th=0.1, qdiff_min_th=0.1, log2_fold_min_th=0.0005, n_cells_min=2,
+                  exact_penetrance=True)
+        with quiet():
+            tt, nu, p_exact = welch_t_test(mean1=stats['c/a']['mean'], var1=stats['c/a']['var'], n1=n,
+                                           mean2=stats['c/b']['mean'], var2=stats['c/b']['var'], n2=n)
+            _, v_exact, _ = score_differential_genes(boring_t=None, **kw)
+            _, v_code, _ = score_differential_genes(boring_t=bt, **kw)
+        ctx.count(('boring-huge-nu', p_th), nontrivial=True)
+        if bool(v_exact[0]) and not bool(v_code[0]):
+            ctx.violation(f'gene with exact Holm-corrected Welch p = {float(p_exact[0])!r} < p_th = {p_th} is not recorded: '
+                          f't = {float(tt[0])!r} lies inside (-boring_t, boring_t), boring_t = {float(bt)!r}, nu = {float(nu[0])!r}',
+                          {'class': BORING_NU, 'p_th': p_th, 'boring_t': float(bt), 't': float(tt[0]), 'nu': float(nu[0]),
+                           'n_cells': n, 'mean1': float(stats['c/a']['mean'][0]), 'mean2': 8.0, 'var': 1.0,
+                           'exact_p': float(p_exact[0]), 'valid_with_exact_p': bool(v_exact[0]),
+                           'valid_as_the_worker_computes': bool(v_code[0])})
+
+
+def totalisation_cases(ctx):
+    """the inputs excluded by pair_wf and 1 <= n_processors are exactly where Python raises (the model is total
+    there: c11_ragged_pair_is_totalised, c11_zero_workers_is_totalised)."""
+    from cell_type_mapper.diff_exp.scores import score_differential_genes
+    stats = {'c/a': {'n_cells': 3, 'mean': np.array([8.0, 8.0]), 'var': np.array([1.0, 1.0]), 'ge1': np.array([3, 3])},
+             'c/b': {'n_cells': 3, 'mean': np.array([0.0, 0.0, 1.0]), 'var': np.array([1.0, 1.0, 1.0]), 'ge1': np.array([0, 0, 0])}}
+    raised = None
+    try:
+        with quiet():
+            score_differential_genes(node_1='c/a', node_2='c/b', precomputed_stats=stats, p_th=0.01)
+    except ValueError as e:
+        raised = 'ValueError'
+    except Exception as e:      # any other refusal is a refusal too, but say which
+        raised = type(e).__name__
+    ctx.count(('ragged', raised), nontrivial=True)
+    if raised is None:
+        ctx.violation('score_differential_genes accepted per-gene arrays of different lengths (pair_wf is assumed to be '
+                      'enforced by numpy)', {'class': 'corr:Penetrance.pair_wf', 'stats': 'lengths 2 and 3'}, no_input=True)
+    try:
+        n_pairs, n_processors = 100, 0
+        min(1000000, n_pairs // (2 * n_processors))          # markers.py:320, the expression itself
+        ctx.violation('n_pairs // (2*0) did not raise', {'class': 'corr:Penetrance.n_per_of'}, no_input=True)
+    except ZeroDivisionError:
+        ctx.count(('zero-workers', 'ZeroDivisionError'), nontrivial=True)
+
+
 def ctx_rank(genes, g):
     """order-preserving integer names for genes; unknown names get ranks beyond the known ones."""
     allg = sorted(set(genes) | {'nope1', 'nope2'})
@@ -1341,8 +1401,12 @@ def run(ctx):
                 'the thresholds, floors on the grid or within 2^-16..2^-20 of the threshold; _get_validity_mask on binary16 '
                 'distances.  non-trivial = >=3 genes with ties (Holm), mixed accept/reject (penetrance, mask)')
     ctx.assumptions += [
-        'raw Welch p-values, q1/qdiff/log2-fold scores and means are model INPUTS taken from the implementation\'s own '
-        'routines (welch_t_test, pij_from_stats, q_score_from_pij, read_precomputed_stats)',
+        'sections A-E: raw Welch p-values, q1/qdiff/log2-fold scores and means are model INPUTS taken from the '
+        'implementation\'s own routines; section F (welch_cases) computes them in the model from the summary statistics '
+        '(values multiples of 1/4, cluster sizes 0, 1, 2, ..., unions of leaves) with scipy.stats.t.cdf as a per-gene oracle',
+        'premises of c11_boring_t_sound (end_lo, end_hi, monotone on [-boring_t, boring_t]) and of c11_sound_exact_welch '
+        '(exact p of a skipped gene >= p_th) are evaluated numerically on every (t, nu) that occurs and for p_th in '
+        '[1e-11, 0.0455] x nu in [0.1, 1e6]; they fail for nu above a few million (known finding, boring_huge_nu_case)',
         'threshold settings: every setting with each strict threshold above its floor, including floors within '
         '2^-16..2^-20 of the threshold (the settings of the repaired finding F8; no distance between threshold and floor '
         'is assumed any more)',
@@ -1363,6 +1427,8 @@ def run(ctx):
     e2e_cases(ctx)
     welch_cases(ctx)
     boring_premise_cases(ctx)
+    boring_huge_nu_case(ctx)
+    totalisation_cases(ctx)
     ctx.extra['boring_premises_checked'] = dict(PREMISES_CHECKED)
     ctx.extra['welch_p_values_checked_against_reference'] = WELCH_CHECKED[0]
     for w in WELCH_ISSUES:
